@@ -109,7 +109,7 @@ def plan(tier):
     shards += [{"kind": "port-values", "part": p, "parts": 4} for p in range(4)]
     if tier != "quick":
         shards += [{"kind": "triples", "part": p, "parts": 128} for p in range(128)]
-    shards += H.plan_shards(['minor-versions', 'minor-version-edits'])
+    shards += H.plan_shards(['minor-versions', 'minor-version-edits', 'legacy-repeats'])
     return shards
 
 
